@@ -61,6 +61,9 @@ CLAIMED["C10"] = ("E-wide", "wide_integer over single-word and multi-limb storag
 CLAIMED["C15"] = ("E-parse", "Run-time parse<T> on generated tokens (all lengths, four bases, signs, separators, stride-boundary lengths) under ASan+UBSan with results read from storage and compared with python int(); literal operators _c/_wide/_cnl/_cnl2 and the "
                   "constant-driven factories in generated translation units whose deduced type facts and values are printed at run time and judged offline; a well-formed literal that does not compile is recorded as an outcome from the compiler diagnostics.",
                   "DESIGN.md §4 C15", "sanitizer-instrumented execution of generated programs + compiler constant-evaluator diagnostics, judged by an offline python checker")
+CLAIMED["C11"] = ("E-shadow", "Generated expression chains over static_integer/static_number (frozen instantiable universe; digits up to 100, exponents in [-40,40], four rounding tags, saturated/throwing/trapping tags, int8/16/32/64 narrowest) executed in lock-step with exact 256-bit "
+                  "rational shadow values: every step must yield the exact (or correctly rounded) value, or the tag's overflow signal exactly when the result leaves the result type's range; any trap, foreign abort or silent mismatch names the step, operands and leaves.",
+                  "DESIGN.md §4 C11", "online lock-step shadow execution (trace checker) under ASan+UBSan with the CNL abort hook")
 PLANNED = {}
 
 
